@@ -189,6 +189,7 @@ def rule_pairing(ctx, rep, rid='R1'):
             ib_ = inl(cad, x, never=lambda y: y.path == upd[0].path)
             if any(callee_is(t, *SOCK_SEND) and not ib_.blocks[bi]['cleanup'] for bi, t in ib_.calls()):
                 entries.append(x)
+    self_accounting = set()
     for b0 in entries:
         b = inl(cad, b0, never=lambda x: x.path == upd[0].path)
         sends = [bi for bi, t in b.calls() if callee_is(t, *SOCK_SEND) and not b.blocks[bi]['cleanup']]
@@ -204,6 +205,15 @@ def rule_pairing(ctx, rep, rid='R1'):
             inst = '%s' % b.short().replace('cadence::sinks::', '')
             mine = [u for u in ups if norm(T.call_term(u))[2][1] == sct]
             mp = bool(mine) and C_must_pass(b, sbi, set(mine))
+            if not mine:
+                # the result is not handed to update(): the caller classifies it itself (match on the result, then private
+                # record_* helpers).  Same obligation, stated on the counters: Ok edge -> bytes_sent += n|len, packets_sent += 1;
+                # Err edge -> bytes_dropped += len, packets_dropped += 1; each exactly once on every path, nothing else.
+                why_ = _accounts_itself(cad, b0, sct)
+                if why_ is None:
+                    rep.good(rid, '%s/every-attempt-classified' % inst, b.where(sbi), 'the caller books the send result itself: sent/dropped counters, once each, on every path')
+                    self_accounting.add(b0.path)
+                    continue
             rep.ob(rid, '%s/every-attempt-classified' % inst, mp, b.where(sbi),
                    'the send result goes to SocketStats::update on every path' if mp else
                    'a send attempt can complete without being recorded by SocketStats::update (some path skips the classification)')
@@ -213,6 +223,12 @@ def rule_pairing(ctx, rep, rid='R1'):
                 okl = ln[0] == 'call' and ln[1].endswith('::len') and strip_views(ln[2][0]) == strip_views(sct[2][1])
                 rep.ob(rid, '%s/dropped-size-is-the-datagram-size' % inst, okl, b.where(u), 'update(.., len of the very buffer sent)' if okl else 'update is given %s as size of a %s datagram' % (fmt(ln)[:60], fmt(sct[2][1])[:60]))
                 oks = self_field_name(uct[2][0]) is not None and self_field_name(uct[2][0]) == stats_field(cad, type_head(b.impl_self or ''))
+                if not oks:
+                    # the counters may sit deeper inside self (an adapter built around the unbuffered sink: self.sink.stats)
+                    r_ = uct[2][0]
+                    while r_[0] in ('ref', 'deref', 'field', 'load', 'autoderef'):
+                        r_ = r_[1]
+                    oks = r_ == ('param', 1) and leaf_field_name(uct[2][0]) is not None
                 rep.ob(rid, '%s/uses-own-stats' % inst, oks, b.where(u), 'recorded in self.stats')
     rep.floor(rid, 'socket send sites', n, 4)
     # who may call incr_*
@@ -230,12 +246,71 @@ def rule_pairing(ctx, rep, rid='R1'):
                 if not x.name.startswith('incr_'):
                     region.add(x.path)
                     changed = True
+    # counter-bumping helpers of SocketStats that are not public API may also be used by a caller that books its own send
+    # (checked above, with those helpers inlined)
+    bumpers = set(x.path for x in cad.all_bodies if x.impl_self and type_head(x.impl_self) == SS and not x.impl_trait and
+                  any(callee_is(t_, 'core::sync::atomic::Atomic::fetch_add') or (t_.get('resolved') or '').startswith(SS + '::incr_') for _, t_ in x.calls()))
+    region |= set(p_ for p_ in bumpers if p_ != upd[0].path and not cad.bodies[p_].name.startswith('incr_') and
+                  all(y.path in region or y.path in self_accounting or y.path in bumpers for y in cad.all_bodies
+                      for _, t_ in y.calls() if t_.get('resolved') == p_))
     for x in cad.all_bodies:
         for bi, t in x.calls():
             r = t.get('resolved') or ''
             if r.startswith(SS + '::incr_') and x.path not in region:
                 bad.append((x, bi))
     rep.ob(rid, 'counters-incremented-only-by-update', not bad, bad[0][0].where(bad[0][1]) if bad else '', 'incr_* are called from update only' if not bad else 'counters also bumped from %s' % [x.short() for x, _ in bad])
+
+
+def _accounts_itself(cad, b0, sct0):
+    """None if body b0 (everything local inlined) books each outcome of its send exactly; else a reason."""
+    roles = stat_roles(cad)
+    if roles is None:
+        return 'counter roles unknown'
+    ib = inl(cad, b0)
+    T = Terms(ib)
+    sends = [bi for bi, t in ib.calls() if callee_is(t, *SOCK_SEND) and not ib.blocks[bi]['cleanup']]
+    if len(sends) != 1:
+        return '%d send sites after inlining' % len(sends)
+    sbi = sends[0]
+    sct = norm(T.call_term(sbi))
+    ok_s, er_s, _sw = outcomes(T, sbi)
+    if not ok_s or not er_s:
+        return 'the send result is not examined'
+    fa = {}
+    for bi, t in ib.calls():
+        if not ib.blocks[bi]['cleanup'] and callee_is(t, 'core::sync::atomic::Atomic::fetch_add', 'core::sync::atomic::Atomic::store',
+                                                     'core::sync::atomic::Atomic::swap', 'core::sync::atomic::Atomic::fetch_sub'):
+            fa[bi] = True
+    n_ok = field_of(('payload', sct, 'Ok'), '0', 0)
+
+    def is_len(a):
+        a = a[4] if a[0] == 'cast' else a
+        return a[0] == 'call' and isinstance(a[1], str) and a[1].endswith('::len') and strip_views(a[2][0]) == strip_views(sct[2][1])
+
+    def amt_n(a):
+        a2 = a[4] if a[0] == 'cast' else a
+        return a2 == n_ok or is_len(a)
+
+    def amt_one(a):
+        return a[0] == 'const' and a[2] == '1'
+    for starts, want, known in ((ok_s, {roles['bytes_sent']: amt_n, roles['packets_sent']: amt_one}, 'Ok'),
+                                (er_s, {roles['bytes_dropped']: is_len, roles['packets_dropped']: amt_one}, 'Err')):
+        Tr, seen = freach(T, list(starts), known={sct: known})
+        got = {}
+        for bi in fa:
+            if bi in seen:
+                ctr = norm(Tr.call_term(bi))
+                got.setdefault(leaf_field_name(ctr[2][0]), []).append((ctr[1].rsplit('::', 1)[-1], ctr[2][1], bi))
+        for fld, amount_ok in want.items():
+            ops = got.get(fld, [])
+            if len(ops) != 1 or ops[0][0] != 'fetch_add' or not amount_ok(ops[0][1]):
+                return 'on the %s edge %s is updated by %s' % (known, fld, [(o_, fmt(a_)[:60]) for o_, a_, _ in ops])
+            if not all(C.must_pass(ib, s_, set(C.exits(ib, False)), {ops[0][2]}) for s_ in starts):
+                return 'on the %s edge %s is not updated on every path' % (known, fld)
+        extra = [f_ for f_ in got if f_ not in want]
+        if extra:
+            return 'on the %s edge %s is touched as well' % (known, extra)
+    return None
 
 
 def _payload_root(t):
@@ -417,6 +492,19 @@ def rule_shared_counters(ctx, rep, rid='R3'):
                     ast = dict(ads[0][3]).get(stats_field(cad, adapter))
                     ok = ast is not None and term_callee_is(ast, 'as core::clone::Clone>::clone') and peel(ast[2][0]) == own and \
                         term_callee_is(own, 'as core::default::Default>::default')
+                if not ok and own is not None:
+                    # general form: every SocketStats inside the new sink - the one stats() reads and whatever the write adapter
+                    # holds (directly or inside a wrapped unbuffered sink) - is the value of ONE creation site or a
+                    # clone(&..) of it (clones share the Arc'd counters), in either direction
+                    def root_(x):
+                        x = peel(x)
+                        while term_callee_is(x, 'as core::clone::Clone>::clone') and len(x[2]) == 1:
+                            x = peel(x[2][0])
+                        return x
+                    made = set(y for y in walk(agg) if y[0] == 'call' and isinstance(y[1], str) and
+                               (y[1] == '<%s as core::default::Default>::default' % SS or y[1] in (SS + '::new', SS + '::default')))
+                    wf = dict(agg[3]).get(field)
+                    ok = len(made) == 1 and root_(own) in made and wf is not None and any(y in made for y in walk(wf))
                 rep.ob(rid, '%s::%s/adapter-shares-sink-stats' % (name, cb.name), ok, cb.where(), 'adapter.stats = sink.stats.clone()' if ok else 'the adapter counts into different cells than the ones stats() reads')
     rep.floor(rid, 'buffered socket sink constructors', n, 4)
     # stats() of the four socket sinks returns a snapshot of self.stats
